@@ -241,7 +241,10 @@ fn run_bs(a: &[&str]) -> String {
                 #[cfg(feature = "ff-unchecked")]
                 #[allow(unsafe_code)]
                 unsafe {
-                    if FuzzyHashCompareTarget::score_cap_on_block_hash_comparison_unchecked(n as u8, l1 as u8, l2 as u8) != c {
+                    // documented contract of the unchecked twin: logarithm below the capping border,
+                    // lengths of at most 64
+                    if n < FuzzyHashCompareTarget::LOG_BLOCK_SIZE_CAPPING_BORDER as u64 && l1 <= 64 && l2 <= 64
+                        && FuzzyHashCompareTarget::score_cap_on_block_hash_comparison_unchecked(n as u8, l1 as u8, l2 as u8) != c {
                         return "UNCHECKED-DISAGREE".into();
                     }
                 }
@@ -343,16 +346,15 @@ fn run_parse(a: &[&str]) -> String {
                         Some(Err(e)) => perr(&e),
                         Some(Ok(d)) => {
                             let n = d.as_normalized();
-                            let (r1, r2) = dual_rle(&d);
+                            let fe = d.fresh_eq_();
                             format!(
-                                "OK {} {} {} {} v={} r1={} r2={}",
+                                "OK {} {} {} {} v={} fe={}",
                                 n.log_block_size(),
                                 hexenc(n.block_hash_1()),
                                 hexenc(n.block_hash_2()),
                                 idx,
                                 b2s(d.is_valid()),
-                                hexenc(&r1),
-                                hexenc(&r2)
+                                b2s(fe)
                             )
                         }
                     }
@@ -363,12 +365,25 @@ fn run_parse(a: &[&str]) -> String {
     }
 }
 
-/// The RLE blocks of a dual hash, observed through `Hash` (the last two `write` calls).
-fn dual_rle<T: std::hash::Hash>(d: &T) -> (Vec<u8>, Vec<u8>) {
-    let w = hash_writes(d);
-    let n = w.len();
-    (w[n - 2].clone(), w[n - 1].clone())
+/// `d` is indistinguishable (`==`, `cmp`, hash-trait output) from the dual hash freshly built from its
+/// own raw form.  This is how stale or non-canonical reverse-normalization data is observed; the RLE
+/// bytes themselves are private, and what a `Hash` impl feeds (and in which order) is not specified.
+trait DualFresh { fn fresh_eq_(&self) -> bool; }
+macro_rules! impl_dual_fresh {
+    ($DUAL:ident) => {
+        impl DualFresh for $DUAL {
+            fn fresh_eq_(&self) -> bool {
+                let d = self;
+                guarded(|| {
+                    let f = $DUAL::from_raw_form(&d.to_raw_form());
+                    f == *d && f.cmp(d) == Ordering::Equal && hash_writes(&f) == hash_writes(d) && f.is_valid() == d.is_valid()
+                }).unwrap_or(false)
+            }
+        }
+    };
 }
+impl_dual_fresh!(D);
+impl_dual_fresh!(LD);
 
 // ---------------------------------------------------------------------------------------------
 // fmt
@@ -412,6 +427,12 @@ fn run_fmt(a: &[&str]) -> String {
                         }
                     }
                 }
+                // formatting parameters (width, fill, alignment, precision, flags) do not apply to a hash:
+                // every spelling prints the same text in every build
+                routes &= format!("{:80}", h) == disp && format!("{:<90}", h) == disp && format!("{:>90}", h) == disp
+                    && format!("{:*^100}", h) == disp && format!("{:.5}", h) == disp && format!("{:.0}", h) == disp
+                    && format!("{:#}", h) == disp && format!("{:+}", h) == disp && format!("{:0150}", h) == disp
+                    && format!("{:w$.p$}", h, w = bl, p = bl / 2) == disp;
                 #[cfg(feature = "ff-default")]
                 {
                     let ts = h.to_string();
@@ -599,8 +620,7 @@ macro_rules! dual_impl {
             _ => return PANIC.into(),
         };
         let others = [b, c, d, e, f];
-        let same = others.iter().all(|x| *x == a && dual_rle(x) == dual_rle(&a)
-            && x.as_normalized().full_eq(a.as_normalized()));
+        let same = others.iter().all(|x| *x == a && x.as_normalized().full_eq(a.as_normalized()));
         let hw = others.iter().all(|x| hash_writes(x) == hash_writes(&a));
         let ce = others.iter().all(|x| a.cmp(x) == Ordering::Equal && a.partial_cmp(x) == Some(Ordering::Equal));
         let raw_back = a.to_raw_form();
@@ -612,18 +632,18 @@ macro_rules! dual_impl {
             rfe &= a.to_raw_form_string() == text && a.to_normalized_string() == format!("{}", a.as_normalized());
         }
         rfe &= a.to_normalized().full_eq(a.as_normalized());
+        rfe &= format!("{:>100.3}", a) == format!("{}", a) && format!("{:<7}", a) == format!("{}", a);
         let mut nip = a;
         nip.normalize_in_place();
         let fnm = $DUAL::from_normalized(a.as_normalized());
         let fr = $DUAL::from_raw_form(&a.as_normalized().to_raw_form());
         let fnm2 = $DUAL::from(*a.as_normalized());
-        let nip_ok = nip == fnm && nip == fr && nip == fnm2 && dual_rle(&nip) == dual_rle(&fnm)
-            && dual_rle(&nip) == dual_rle(&fr) && nip.is_valid() && nip.is_normalized();
-        let (r1, r2) = dual_rle(&a);
+        let nip_ok = nip == fnm && nip == fr && nip == fnm2 && hash_writes(&nip) == hash_writes(&fnm)
+            && hash_writes(&nip) == hash_writes(&fr) && nip.is_valid() && nip.is_normalized();
         format!(
-            "n={} raw={} rfe={} v={} same={} hw={} ce={} isn={} nip={} r1={} r2={}",
+            "n={} raw={} rfe={} v={} same={} hw={} ce={} isn={} nip={}",
             a.as_normalized(), raw_back, b2s(rfe), b2s(a.is_valid()), b2s(same), b2s(hw), b2s(ce),
-            b2s(a.is_normalized()), b2s(nip_ok), hexenc(&r1), hexenc(&r2)
+            b2s(a.is_normalized()), b2s(nip_ok)
         )
     }};
 }
@@ -652,10 +672,14 @@ macro_rules! dual2_impl {
         });
         let (x, y) = match xy { Some(p) => p, None => return PANIC.into() };
         let c = x.cmp(&y);
+        let nc = x.as_normalized().cmp(y.as_normalized());
+        // dual hashes sharing a normalized part are ordered deterministically, but which of two raw
+        // forms comes first is not specified: only "equal or not" is printed in that case
+        let cs = if nc == Ordering::Equal && c != Ordering::Equal { "ne" } else { ord_str(c) };
         format!(
             "eq={} heq={} ceq={} anti={} ncmp={} cmp={}",
             b2s(x == y), b2s(hash_writes(&x) == hash_writes(&y)), b2s(c == Ordering::Equal),
-            b2s(c == y.cmp(&x).reverse()), ord_str(x.as_normalized().cmp(y.as_normalized())), ord_str(c)
+            b2s(c == y.cmp(&x).reverse() && x.partial_cmp(&y) == Some(c)), ord_str(nc), cs
         )
     }};
 }
@@ -1354,9 +1378,9 @@ macro_rules! fh_st {
 macro_rules! dh_st {
     ($name:expr, $d:expr) => {{
         let d = &$d;
-        let (r1, r2) = dual_rle(d);
+        let fe = d.fresh_eq_();
         let raw = match guarded(|| format!("{}", d.to_raw_form())) { Some(s) => s, None => PANIC.to_string() };
-        format!("{}={}|{}|{}|{}|{}{}", $name, d.as_normalized(), raw, b2s(d.is_valid()), hexenc(&r1), hexenc(&r2),
+        format!("{}={}|{}|{}|{}{}", $name, d.as_normalized(), raw, b2s(d.is_valid()), b2s(fe),
             if dbg_ok(d) { "" } else { "|DBGPANIC" })
     }};
 }
